@@ -13,6 +13,9 @@ import os
 from .common import SPEC, VERIF, repo_fingerprint
 
 CACHE = os.path.join(VERIF, ".cache")
+if os.environ.get("VERIF_REPO"):
+    # checks pointed at a scratch copy of the repository (mutation trials) keep their own cache
+    CACHE = os.path.join(VERIF, ".cache", "alt-" + hashlib.sha256(os.environ["VERIF_REPO"].encode()).hexdigest()[:10])
 
 
 def _src_hash():
